@@ -6,7 +6,7 @@ from hypothesis import strategies as st
 from vlib.core import Outcome, Sub, HarnessError, is_known
 
 from boltons import iterutils
-from boltons.iterutils import remap, research, get_path
+from boltons.iterutils import remap, research, get_path, default_enter, default_exit
 
 LEVEL = 'exploration'
 RULE = ('inputs are *construction programs*: instructions leaf/list/tuple/dict/set/frozenset whose members refer to earlier objects '
@@ -91,7 +91,7 @@ def strat(tier):
                                                lambda t: t[0] + [t[1]] + t[2])),
         'patches': st.lists(st.tuples(st.sampled_from(['append', 'setitem']), _ref, _ref, _ref).map(list), max_size=2),
         'root': _ref,
-        'prior': st.sampled_from([None, None, None, 'unhashable_key', 'visit_raises', 'unhashable_member', 'enter_raises']),
+        'prior': st.sampled_from([None, None, None, 'unhashable_key', 'visit_raises', 'unhashable_member', 'enter_raises', 'opaque_enter', 'opaque_enter']),
         'visit': st.one_of(st.none(), st.none(),
                            st.lists(st.sampled_from(_ACTIONS), min_size=30, max_size=30),
                            st.lists(st.sampled_from(['keep', 'keep', 'keep', 'keep', 'drop', 'revalue', 'retype']), min_size=30, max_size=30)),
@@ -450,7 +450,15 @@ def run(case):
             _call(remap, [{1, 2}, frozenset([3])], lambda p, k, v: (k, [v]) if isinstance(v, int) else (k, v))
         elif prior == 'enter_raises':
             _call(remap, {'k': [1, (2,)]}, enter=_raising_enter)
-        out.label('after_failed_call:' + prior)
+        elif prior == 'opaque_enter':
+            # ... and neither must earlier SUCCESSFUL calls that used their own callbacks: enter functions that treat one of the
+            # built-in container types as opaque (the documented way to keep remap out of them), a custom exit, a research() call
+            sample = [(1, [2]), frozenset([3]), [4, [5]], {'k': [6], 'j': {'i': 7}}, {8}]
+            for T in (tuple, frozenset, list, dict, set):
+                _call(remap, sample, enter=lambda p, k, v, T=T: (v, False) if isinstance(v, T) and v is not sample else default_enter(p, k, v))
+            _call(remap, sample, exit=lambda p, k, old, new, items: default_exit(p, k, old, new, items))
+            _call(research, sample, lambda p, k, v: isinstance(v, int), enter=lambda p, k, v: (v, False) if isinstance(v, tuple) else default_enter(p, k, v))
+        out.label(('after_failed_call:' if prior != 'opaque_enter' else 'after_calls_with_custom_callbacks:') + prior)
     r = _call(remap, root, make_visit(table, log_real)) if table is not None else _call(remap, root)
     if snapshot(root) != before:
         return out.fail('c08.input-mutated', 'remap mutated its input %s' % rootdesc)
